@@ -129,6 +129,10 @@ func kindAt(sc *scenario, k int) string {
 // power-loss image reachable from the state at return shows the change.
 func propC09(r *Run) {
 	inBubble(r, func(rr *randRecorder) {
+		if r.Choose("two-writers", 8) == 0 {
+			propC09TwoWriters(r, rr)
+			return
+		}
 		scenarioOtherDev = true
 		sc := genScenario(r, rr, []string{"add", "update", "set-admin", "remove", "init", "set-admin", "remove"})
 		scenarioOtherDev = false
